@@ -284,6 +284,10 @@ func layRender(l *layCase) map[string]string {
 			if it.Short {
 				return m + "(*A) *B"
 			}
+			if it.Mdoc && len(ms) == 2 && m == ms[1] {
+				// an additional argument whose type is an interface LITERAL: braces inside the interface's own braces
+				return m + "(*LayA, interface{ Len() int }) *LayB"
+			}
 			return m + "(*LayA) *LayB"
 		}
 		eq := ""
@@ -323,7 +327,10 @@ func layRender(l *layCase) map[string]string {
 			}
 			sb.WriteString("}")
 		}
-		if it.After {
+		if it.After && it.Trail {
+			// glued to the brace, as an editor may leave it
+			fmt.Fprintf(&sb, "// after the brace tokAF%s", it.ID)
+		} else if it.After {
 			fmt.Fprintf(&sb, " // after the brace tokAF%s", it.ID)
 		}
 		sb.WriteString("\n")
